@@ -7,7 +7,8 @@ From DV Require Import Run_C09 C09P.
 (* the statement at full strength, against the model: at every point at which the tables are read
    back with no recomputation pending, count + daily hash are the from-scratch recount (CDaily) and
    the whole log, history hash included, is the canonical function of the content (CCanon).
-   The faithful model REFUTES it (the C09_refuted theorems); what holds outside the known classes is below. *)
+   The faithful model still REFUTES it for the history hash, empty rows and an entity change
+   (the C09_refuted theorems); what holds outside the open classes is below. *)
 (* (1) every history — any number of writer batches, recomputations anywhere, inside batches too —
    in which each write marks every key whose content it changes (known_C09 = []: decided by the
    model, step by step) ends, wherever nothing is pending, with count and daily hash equal to the
@@ -61,17 +62,42 @@ Theorem C09_recount_injective : forall s1 s2 k1 k2, recount s1 k1 = recount s2 k
 Proof. exact recount_inj. Qed.
 Print Assumptions C09_recount_injective.
 
-(* (5) refutations: closed histories on which the faithful model violates the statement; each is
-   also a directed case of the harness and fails the same way on the real code *)
-Theorem C09_refuted_sync_update : spec_C09 w_sync_update (run_C09 w_sync_update) = false /\ known_C09 w_sync_update = [1].
-Proof. exact refuted_sync_update. Qed.
-Print Assumptions C09_refuted_sync_update.
-Theorem C09_refuted_ref_deletion : spec_C09 w_ref_deletion (run_C09 w_ref_deletion) = false /\ known_C09 w_ref_deletion = [2].
-Proof. exact refuted_ref_deletion. Qed.
-Print Assumptions C09_refuted_ref_deletion.
-Theorem C09_refuted_tombstone : spec_C09 w_tombstone (run_C09 w_tombstone) = false /\ known_C09 w_tombstone = [3].
-Proof. exact refuted_tombstone. Qed.
-Print Assumptions C09_refuted_tombstone.
+(* (5) the three write kinds repaired in /repo (4510e5f, f14488a, 9c2e3ca) now cover, for every state:
+   a peer's tombstones unconditionally; *)
+Theorem C09_tombstone_holds : forall s ts,
+  let r := exec_op (SDelNodes ts) s in uncovered s (fst r) (snd r) = [].
+Proof. exact tombstone_covers. Qed.
+Print Assumptions C09_tombstone_holds.
+(* synchronised nodes whenever no offered version changes the entity of the stored row of its id
+   (the complement is the open class 6 below); *)
+Theorem C09_sync_update_holds : forall s room ns, pall (ingest1 room) same_entity s ns ->
+  let r := exec_op (SNodes room ns) s in uncovered s (fst r) (snd r) = [].
+Proof. exact sync_update_covers. Qed.
+Print Assumptions C09_sync_update_holds.
+(* a reference deletion, with or without the reference (premise: no edge tombstone is already dated
+   at the current instant: INSERT OR REPLACE keys that table without the source entity) *)
+Theorem C09_ref_deletion_holds : forall s src ent dest sig esig,
+  (forall d, In d (edels s) -> ed_date d <> now s) ->
+  let r := exec_op (LDelRef src ent dest sig esig) s in uncovered s (fst r) (snd r) = [].
+Proof. exact ref_deletion_covers. Qed.
+Print Assumptions C09_ref_deletion_holds.
+(* the former refutation witnesses (directed cases d0, d1, d2 of the harness) pass, nothing known *)
+Theorem C09_witness_sync_update_holds : spec_C09 w_sync_update (run_C09 w_sync_update) = true /\ known_C09 w_sync_update = [].
+Proof. exact holds_sync_update. Qed.
+Print Assumptions C09_witness_sync_update_holds.
+Theorem C09_witness_ref_deletion_holds : spec_C09 w_ref_deletion (run_C09 w_ref_deletion) = true /\ known_C09 w_ref_deletion = [].
+Proof. exact holds_ref_deletion. Qed.
+Print Assumptions C09_witness_ref_deletion_holds.
+Theorem C09_witness_tombstone_holds : spec_C09 w_tombstone (run_C09 w_tombstone) = true /\ known_C09 w_tombstone = [].
+Proof. exact holds_tombstone. Qed.
+Print Assumptions C09_witness_tombstone_holds.
+
+(* (6) refutations that remain: closed histories on which the faithful model violates the statement;
+   each is also a directed case of the harness and fails the same way on the real code.
+   A synchronised version that arrives under another entity than the stored row of its id: *)
+Theorem C09_refuted_entity_change : spec_C09 w_entity_change (run_C09 w_entity_change) = false /\ known_C09 w_entity_change = [6].
+Proof. exact refuted_entity_change. Qed.
+Print Assumptions C09_refuted_entity_change.
 (* same stored rows: one pass gives the canonical log, day by day does not; a change on an earlier
    day leaves the later history hashes untouched *)
 Theorem C09_refuted_history :
